@@ -26,6 +26,7 @@ MEAS_DIAG = [
 OPTS = [
     {}, {'repeat_limit': 1}, {'repeat_limit': 2}, {'repeat_limit': 4}, {'force_repeat': True}, {'repeat_on_measurement_fail': True},
     {'repeat_on_timeout': True}, {'stop_on_measurement_fail': True}, {'run_if': 'false'}, {'run_if': 'true'}, {'run_if': 'raise'},
+    {'run_if': 'none'}, {'run_if': 'zero', 'force_repeat': True}, {'run_if': 'empty', 'repeat_on_measurement_fail': True},
     {'run_if': 'once'}, {'run_if': 'once', 'force_repeat': True}, {'run_if': 'once', 'repeat_on_measurement_fail': True},
 ]
 
@@ -104,8 +105,35 @@ def _work(item):
   return n, viols, sorted(outcomes, key=repr), sample
 
 
+def monitored_cases():
+  """A phase wrapped by @monitors.monitors(...) maps what its body did to the same record as the bare phase (differential)."""
+  from vf import htf as vhtf  # pylint: disable=g-import-not-at-top
+  from openhtf.core import monitors  # pylint: disable=g-import-not-at-top
+  bad, n = [], 0
+  for ret in ('ok', 'continue', 'fail', 'skip', 'stop', 'repeat', 'raise', 'bad', 'bad0', 'sysexit'):
+    obs = []
+    for monitored in (False, True):
+      ctx = progs.RunCtx()
+      ph = progs.make_phase('p0', {'ret': [ret, 'ok']}, ctx)
+      if monitored:
+        ph = monitors.monitors('mon_p0', lambda test: 1, poll_interval_ms=20)(ph)
+      tail = progs.make_phase('p1', {'ret': ['ok']}, ctx)
+      res, recs, test, terr = vhtf.run_test([ph, tail])
+      rec = recs[0]
+      obs.append((rec.outcome.name, [(p.name, p.outcome.name, progs.result_kind(p.result)) for p in rec.phases], list(ctx.calls)))
+    n += 1
+    if obs[0] != obs[1]:
+      bad.append(('monitored:%s' % ret, 'body behaviour %r: bare phase gives %r, the same phase with a monitor gives %r' % (ret, obs[0], obs[1]),
+                  {'monitored': ret}))
+  return n, bad
+
+
 def run(tier):
   rep = common.Report(PID, tier, 'model_checking')
+  nm, badm = monitored_cases()
+  rep.merge_violations(badm)
+  rep.add_part('monitored phases (differential)', states=nm, transitions=nm, traces_validated_against_impl=2 * nm, evaluations=nm,
+               distinct_nontrivial=nm, exhaustive=True, samples=[{'behaviours': 10, 'oracle': 'record of the bare phase'}])
   step = common.NCPU * 6
   res = common.pmap(_work, common.rotate([(tier, s, step) for s in range(step)]), chunksize=1)
   n = sum(r[0] for r in res)
@@ -127,6 +155,12 @@ def run(tier):
 
 def replay(art):
   r = art['replay']
+  if 'monitored' in r:
+    n, bad = monitored_cases()
+    hit = [b for b in bad if b[2]['monitored'] == r['monitored']]
+    for b in hit:
+      print('VIOLATED', b[0], b[1])
+    return 1 if hit else 0
   diffs, got = c02.compare(r['spec'], r['settings'])
   print('phases', [(p[0], p[1], p[2]) for p in got.get('phases', [])], 'calls', got.get('calls'))
   for d in diffs:
